@@ -521,7 +521,7 @@ def run(ctx):
     from .c08 import _take as _take_s
     r_s = Rule("C20", "C20.R7", "every sheet of a Markdown workbook, also one that is a name only, is offered to the misspelling check", floor=3,
                necessary="a misspelt sheet that is never registered gets no 'similar names' advisory")
-    _take_s(r_s, _c12s.run(ctx), "C12.R2", lambda c: c.startswith("md_to_dict:sheet names["))
+    _take_s(r_s, ctx.other(_c12s), "C12.R2", lambda c: c.startswith("md_to_dict:sheet names["))
     rules.append(r_s)
     return rules
 
